@@ -105,6 +105,8 @@ type World struct {
 	OAuth    map[string]map[string]string // code -> details returned by the provider stub
 	Pages    []string                     // pages rendered during the current request
 	Datas    []authboss.HTMLData
+	Seen     []authboss.HTMLData // every data set handed to a renderer, also when the render then fails
+	SeenSMS  []string            // every code handed to the SMS sender, also when sending fails
 	Probe    *Probe
 	Epoch    time.Time
 }
@@ -190,6 +192,11 @@ type renderer struct {
 
 func (r renderer) Load(names ...string) error { return nil }
 func (r renderer) Render(ctx context.Context, page string, data authboss.HTMLData) ([]byte, string, error) {
+	seen := authboss.HTMLData{}
+	for k, v := range data {
+		seen[k] = v
+	}
+	r.w.Seen = append(r.w.Seen, seen)
 	if err := r.w.Store.Backend("Render"); err != nil {
 		return nil, "", err
 	}
@@ -236,6 +243,7 @@ func (m mailer) Send(ctx context.Context, e authboss.Email) error {
 type smsSender struct{ w *World }
 
 func (s smsSender) Send(ctx context.Context, number, text string) error {
+	s.w.SeenSMS = append(s.w.SeenSMS, text)
 	if err := s.w.Store.Backend("SMS"); err != nil {
 		return err
 	}
@@ -416,11 +424,14 @@ func New(cfg Cfg) (*World, error) {
 
 type Result struct {
 	Status   int
+	Header   http.Header // every response header as written (jar events travel in X-Jar-*)
 	Location string
 	Body     string
 	JSON     map[string]interface{}
 	Pages    []string
 	Datas    []authboss.HTMLData
+	Seen     []authboss.HTMLData // every data set handed to a renderer, also when the render then fails
+	SeenSMS  []string            // every code handed to the SMS sender, also when sending fails
 	Panic    string
 	Probe    *Probe
 	Calls    []string
@@ -502,6 +513,7 @@ func (w *World) DoRaw(b *Browser, method, target, ct string, body *bytes.Reader,
 	req.Header.Set("X-Browser", b.ID)
 	rec := &recorder{ResponseRecorder: httptest.NewRecorder()}
 	w.Pages, w.Datas, w.Probe = nil, nil, nil
+	w.Seen, w.SeenSMS = nil, nil
 	w.Store.Calls, w.Store.CallLog, w.Store.fault, w.Store.Injected = 0, nil, fault, false
 	nm, ns := len(w.Mails), len(w.SMSs)
 	logStart := w.Log.Len()
@@ -518,12 +530,14 @@ func (w *World) DoRaw(b *Browser, method, target, ct string, body *bytes.Reader,
 	res.Status = rec.Code
 	res.Wrote = rec.wrote
 	res.Location = rec.Header().Get("Location")
+	res.Header = rec.Header().Clone()
 	res.Body = rec.Body.String()
 	if strings.HasPrefix(rec.Header().Get("Content-Type"), "application/json") {
 		// a handler chain may write more than one document; the first is the response
 		json.NewDecoder(bytes.NewReader(rec.Body.Bytes())).Decode(&res.JSON)
 	}
 	res.Pages, res.Datas, res.Probe = w.Pages, w.Datas, w.Probe
+	res.Seen, res.SeenSMS = w.Seen, w.SeenSMS
 	res.Calls, res.Injected = w.Store.CallLog, w.Store.Injected
 	res.NewMail = append([]Mail(nil), w.Mails[nm:]...)
 	res.NewSMS = append([]SMS(nil), w.SMSs[ns:]...)
